@@ -272,7 +272,7 @@ ORACLE_KINDS_C14 = ("error-status-but-resource-changed", "error-status-but-hidde
                     "routes-disagree", "served-valuation-differs-from-fresh-instance")
 
 
-def common(pid, ctx, sub):
+def common(pid, ctx, sub, alongside=None):
     ctx.build_harness()
     lines = ctx.run_harness(sub, [ctx.tier], timeout=3000)
     for l in lines:
@@ -283,7 +283,24 @@ def common(pid, ctx, sub):
         if l.get("kind") == "note":
             ctx.notes.append(l)
     ctx.check_theorems("Properties/%s.v" % pid)
+    ctx.engine_lines = lines
+    side = None
+    if alongside is not None:   # further correspondence files compiled while the case shards are
+        import threading
+        failure = []
+
+        def guarded():
+            try:
+                alongside(ctx, lines)
+            except Exception as e:   # re-raised in the main thread below
+                failure.append(e)
+        side = threading.Thread(target=guarded)
+        side.start()
     cases, descs, nshards, bad = generate(pid, ctx, lines)
+    if side is not None:
+        side.join()
+        if failure:
+            raise failure[0]
     nsteps = sum(len(c["steps"]) for c in cases)
     distinct = len({json.dumps(st["req"], sort_keys=True) for c in cases for st in c["steps"]})
     ctx.coverage.update({"evaluations": nsteps, "distinct_nontrivial": distinct, "sequences": len(cases),
@@ -294,8 +311,45 @@ def common(pid, ctx, sub):
     return cases
 
 
+def served_correspondence(ctx, lines):
+    """The six totals (and ValidAgainstScenario) served by GET /model for sampled distinct (scenario, action set) pairs are
+    recomputed in Coq from the data set exported from the scenario's model instance: Catchment.canon_total through
+    EngineCatchment.served_mismatches (which also checks wf_dataset and that the descriptor used by the engine
+    correspondence agrees with the one built from the data set)."""
+    import catchgen
+    descs = sorted([l for l in lines if l.get("kind") == "desc" and l.get("served")], key=lambda d: d["id"])
+    jobs = []
+    for d in descs:
+        items = ["(mkServed %s %s %s)" % (bits(c["bits"]), g.lst([z(t) for t in c["totals"]]), optb(c["valid"])) for c in d["served"]]
+        body = g.HEADER + "From Crem Require Import Base.Res Base.Fl Engine EngineCorr EngineCatchment.\n"
+        body += "From Crem Require Import Catchment CatchmentCorr.\nOpen Scope Z_scope.\n"
+        body += desc(d)
+        body += "Definition ds : Catchment.dataset :=\n  %s.\n" % catchgen.dataset(d["dataset"])
+        body += "Definition cs : list served := %s.\n" % g.lst(items)
+        body += "Definition M := Eval vm_compute in served_mismatches ds d%d cs.\nPrint M.\n" % d["id"]
+        jobs.append((d, body))
+
+    def one(job):
+        d, body = job
+        return d, ctx.correspondence("cases_C14_served_%d" % d["id"], body, label="correspondence:served-values:scenario-%d" % d["id"],
+                                     ncases=len(d["served"]))
+
+    with concurrent.futures.ThreadPoolExecutor(max_workers=3) as ex:
+        results = list(ex.map(one, jobs))
+    n = 0
+    for d, idx in results:
+        n += len(d["served"])
+        for i in (idx or [])[:3]:
+            ctx.notes.append({"served_values_mismatch": d["served"][i] if i < len(d["served"]) else
+                              {998: "descriptor built from the data set disagrees with the exported one", 999: "exported data set is not wf"}.get(i, i),
+                              "scenario_descriptor": d["id"]})
+    ctx.coverage["served_values_recomputed_in_coq"] = {"samples": n, "scenarios": len(descs),
+        "rule": "first distinct (scenario, served action set) pairs of the run; six totals as grid integers = Catchment.canon_total "
+                "of the exported data set, ValidAgainstScenario = limit check on those totals"}
+
+
 def run(ctx):
-    common("C14", ctx, "C14")
+    common("C14", ctx, "C14", alongside=served_correspondence)
     ctx.coverage["rule"] = (
         "request sequences through the real Mux.ServeHTTP (fresh Mux each): state-aware random walks over all routes and methods "
         "(valid and malformed bodies, texts with %, quotes, CR/LF, non-UTF-8) plus route triples (same prefix, same target action "
